@@ -235,16 +235,23 @@ end
 
 def walkFuel : Nat := 400
 
+/-- first segment of an artifact path: the type the entrypoint belongs to -/
+def firstSegment (rel : Str) : Str := rel.takeWhile (· != 47)
+
+/-- is the entrypoint's reader read at the root record?  (`concreteType` is the root type of the
+operation; the artifact lives under the type the field is declared on) -/
+def Entry.atRoot (e : Entry) : Bool := firstSegment e.rel == e.concreteType
+
 def walkEntry (g : Graph) (e : Entry) : List Hit :=
   match g.reader? e.reader with
   | none => []
   | some r =>
-    walkNodes g walkFuel r.ast (e.nested.map fun q => Selected.artifact q.1) none [] [] (some e.op.norm)
+    -- an entrypoint of a non-root type (generated for a loadable field) is read at the object
+    -- fetched through the wrapping `node(id: $id) { ... on T {`
+    let ctx := if e.atRoot then e.op.norm else lastLevel (unwrapLevels 8 e.op.norm)
+    walkNodes g walkFuel r.ast (e.nested.map fun q => Selected.artifact q.1) none [] [] (some ctx)
 
 /-! ### the oracle -/
-
-/-- first segment of an artifact path: the type the entrypoint belongs to -/
-def firstSegment (rel : Str) : Str := rel.takeWhile (· != 47)
 
 def segments (rel : Str) : List Str :=
   let rec go : Nat → Str → Str → List Str
@@ -320,6 +327,17 @@ def coverProblems (g : Graph) : Nat → List NNode → List RNode → Option Env
 def coversNodes (g : Graph) (fuel : Nat) (norm : List NNode) (ast : List RNode) (env : Option Env) : Bool :=
   (coverProblems g fuel norm ast env).isEmpty
 
+/-- why a position cannot be found in a normalization AST: the class of the first step that fails -/
+def classifyPosition (nodes : List NNode) : List PathEl → String
+  | [] => "found"
+  | el :: rest =>
+    match descend1 nodes el with
+    | some sel => classifyPosition sel rest
+    | none =>
+      match el with
+      | .field n a => classifyUncovered nodes n a a
+      | .frag _ => "fragment-not-selected"
+
 def selectedText : Selected → Str
   | .artifact rel => rel
   | .missing => cs!"!missing"
@@ -370,7 +388,9 @@ def hitVerdict (g : Graph) (e : Entry) (h : Hit) : Option String :=
         else some "pointer-query-does-not-cover-reads"
       | _ =>
         match h.ctx.bind (descend · h.path) with
-        | none => some "position-not-fetched"
+        | none => some ("position-not-fetched:" ++ (match h.ctx with
+            | some c => classifyPosition c h.path
+            | none => "no-context"))
         | some target =>
           if nameOk && levels.any (fun lvl => selEq 64 lvl target) then none
           else if others.any (fun o => same o target && (o.op.text.bind operationName) == some expectedName)
@@ -394,5 +414,13 @@ def c25Line (g : Option Graph) (entryRel : String) : String :=
       let hits := walkEntry g e
       let items := hits.map fun h => strHex h.trail ++ "=" ++ strHex (selectedText h.selected)
       " ".intercalate (toString hits.length :: items) ++ "\t" ++ entryVerdict g e
+
+/-- debugging aid: every refetchable selection with its verdict -/
+def c25Debug (g : Option Graph) (entryRel : String) : String :=
+  match g.bind (fun g => (g.entry? (strOfString entryRel)).map fun e => (g, e)) with
+  | none => "noentry\tok"
+  | some (g, e) =>
+    " | ".intercalate ((walkEntry g e).map fun h =>
+      stringOfStr h.trail ++ " -> " ++ stringOfStr (selectedText h.selected) ++ " : " ++ (hitVerdict g e h).getD "ok") ++ "\tok"
 
 end IsoVerif.Ops
